@@ -90,7 +90,7 @@ func probeChild(name string) {
 		// tasks that Submit to their own queue while other goroutines keep the small `in` channel full
 		depth := map[string]int{"reentrant-unbounded": -1, "reentrant-bounded": 1, "reentrant-depth0": 0}[name]
 		var ran atomic.Int32
-		q := taskqueue.New(taskqueue.Workers(1), taskqueue.Depth(depth), taskqueue.VerifInCap(1))
+		q := taskqueue.New(withInCap([]taskqueue.Option{taskqueue.Workers(1), taskqueue.Depth(depth)}, 1)...)
 		const outer = 200
 		var wg, nested sync.WaitGroup
 		for s := 0; s < 4; s++ {
